@@ -248,7 +248,7 @@ const handlers = {
           mism.push({ where: '', ch: 'throw', name: '', expected: refThrew === null ? '<returns>' : 'throws: ' + refThrew.split('\n')[0], actual: realThrew === null ? '<returns>' : 'throws: ' + realThrew.split('\n').slice(0, 3).join(' | ') })
         }
       } else {
-        cmpTrees(expected, actual, '', mism, { paths: !!req.paths })
+        cmpTrees(expected, actual, '', mism, { paths: !!req.paths, fnBySource: true })
       }
       results.push({ mismatches: mism.slice(0, 50), nodes: actual ? countNodes(actual) : 0 })
     }
